@@ -6,7 +6,12 @@
 //! real tarpc objects, writes an ndjson event trace (validated by TLC) and a JSON report.
 
 mod exec;
+mod client;
+mod hooks;
 mod keys;
+mod server;
+mod stubs;
+mod vtransport;
 
 use serde_json::{json, Value};
 use std::{collections::BTreeMap, io::Write};
@@ -122,6 +127,10 @@ fn main() {
     exec::log_enable(true);
     let report: Value = match a.family.as_str() {
         "keys" => keys::run(&a),
+        "client" => client::run(&a),
+        "server" => server::run(&a),
+        "hooks" => hooks::run(&a),
+        "stubs" => stubs::run(&a),
         f => {
             eprintln!("unknown family {f}");
             std::process::exit(2);
